@@ -123,7 +123,7 @@ func main() {
 	spec, ok := specs[prop]
 	if !ok {
 		if strings.HasPrefix(prop, "SELF") {
-			spec = propSpec{workers: 1, level: "model_checking"}
+			spec = propSpec{level: "model_checking"}
 		} else {
 			die(2, "unknown property %s", prop)
 		}
@@ -368,9 +368,24 @@ func run(prop, tier string, seed int64, repo, replay, scratch string, spec propS
 		fmt.Printf("  signature: %s\n  %s\n", sig, strings.ReplaceAll(v.What, "\n", "\n  "))
 		exit = 1
 	}
+	if replay != "" {
+		// a replay re-executes one recorded case: it does not describe the coverage of a check
+		fmt.Printf("%s replay of %s: reproduced=%v\n", prop, replay, nviol+len(knownHit) > 0)
+		return exit
+	}
 	if err := writeEvidence(prop, tier, seed, spec, m, rw, nviol, knownHit, time.Since(start)); err != nil {
 		fmt.Fprintf(os.Stderr, "check: cannot write evidence: %v\n", err)
 		return 2
+	}
+	if os.Getenv("VERIF_VERBOSE") != "" || strings.HasPrefix(prop, "SELF") {
+		var ks []string
+		for k := range m.counts {
+			ks = append(ks, k)
+		}
+		sort.Strings(ks)
+		for _, k := range ks {
+			fmt.Printf("  %s=%d\n", k, m.counts[k])
+		}
 	}
 	states := len(m.keys["states"])
 	fmt.Printf("%s %s: states=%d transitions=%d evaluations=%d violations=%d known=%d wall=%.1fs\n",
